@@ -117,6 +117,22 @@ theorem c07_full_refuted : ¬ C07_full := by
   rw [h5] at this
   cases this
 
+/-- what IS proved for the current code: the classification (any silently ignored construct is one of the listed ones,
+and every listed one is real), the range fragment (faithful for every form but `*n`; emit-parse fixed point).
+Not proved (tied per case to the real code by the harness instead): emit∘build = id on the whole Represented sub-grammar. -/
+def C07_partial : Prop :=
+  ((C07Witness.frontier.map (fun p => ruleName p.2)).all C07Known.knownIgnored.contains = true ∧
+    C07Known.knownIgnored.all (C07Witness.frontier.map (fun p => ruleName p.2)).contains = true) ∧
+  (∀ (a : Option Nat) (dots : Bool) (b : Option Nat), dots = true ∨ a = none →
+    ((parseRange (rangeTokens a dots b)).start, (parseRange (rangeTokens a dots b)).stop) = rangeDenotes a dots b) ∧
+  (∀ r : Option Int × Option Int, ((parseRange (emitRangeT r)).start, (parseRange (emitRangeT r)).stop) = r)
+
+theorem c07_partial : C07_partial :=
+  ⟨ignored_rules_listed, fun a dots b h => (range_literal_faithful_partial a dots b h).1, emit_build_fixed_range⟩
+
+/-- `Represented` separates the two sample trees -/
+theorem represented_samples : C.represented sampleQ = true ∧ C.represented idxTree = false := by decide +kernel
+
 /-- the code's reading of `NOT NOT true` equals its reading of `NOT true` (mirror mode of `build`), although the texts differ -/
 theorem not_collapse_witness :
     (build { N with mirrorNot := true } notNotTree).toOption.map toSexp = (build { N with mirrorNot := true } notTree).toOption.map toSexp ∧
